@@ -799,6 +799,14 @@ class Dataset(AbstractDataset, dict, OpMixin, GetSetDelAttrMixin):
                 res[k1] = self[k1]._binary_op(func, other)
         return res
 
+    def _rbinary_op(self, func, other):
+        """ reflected operation (e.g. 2 - ds), for each key
+        """
+        res = self.__class__()
+        for k in self.keys():
+            res[k] = self[k]._rbinary_op(func, other)
+        return res
+
     def _unary_op(self, func):
         res = self.__class__()
         for k in self.keys():
